@@ -466,9 +466,10 @@ def scanSelGroups (link : Str) : Except Err (Option Str × Option Str) :=
     let d1 := r.takeWhile isDigit
     if d1.isEmpty then .error .attributeError
     else match r.dropWhile isDigit with
-      | '/' :: r2 =>
+      | [] => .ok (none, none)
+      | s :: r2 =>
         let d4 := r2.takeWhile isDigit
-        if d4.isEmpty then .ok (none, none)
+        if s ≠ '/' || d4.isEmpty then .ok (none, none)
         else
           let r3 := r2.dropWhile isDigit
           let g6 := if isPrefix "/250K".toList r3 then some "250K".toList
@@ -476,7 +477,6 @@ def scanSelGroups (link : Str) : Except Err (Option Str × Option Str) :=
             else if isPrefix "/2M".toList r3 then some "2M".toList
             else none
           .ok (some d4, g6)
-      | _ => .ok (none, none)
 
 /-- first loop of `scan_selected`: the `{'channel', 'datarate'}` entry for one link -/
 def scanSelEntry (link : Str) : Except Err (Int × Nat) :=
